@@ -152,13 +152,20 @@ theorem toInt_shl (a : W) (k : Nat) : (a <<< k).toInt = wrapS (pyShl a.toInt k) 
   rw [this]
   exact wrapS_congr (emod_mul_congr _ (toNat_emod_eq_toInt_emod a))
 
+/-- the guard in `ishl` (which keeps the executable model from building a 2^64-bit natural) changes nothing -/
+theorem ishl_eq (a b : W) : ishl a b = a <<< b.toNat := by
+  unfold ishl
+  split
+  · rename_i h; exact (BitVec.shiftLeft_eq_zero h).symm
+  · rfl
+
 theorem ishl_toInt (a b : W) (h0 : 0 ≤ b.toInt) :
     (ishl a b).toInt = wrapS (pyShl a.toInt b.toInt.toNat) := by
-  unfold ishl; rw [shift_count b h0]; exact toInt_shl a _
+  rw [ishl_eq, shift_count b h0]; exact toInt_shl a _
 
 theorem ishl_toNat (a b : W) :
     ((ishl a b).toNat : Int) = wrapU (pyShl a.toNat b.toNat) := by
-  unfold ishl pyShl
+  rw [ishl_eq]; unfold pyShl
   rw [BitVec.toNat_shiftLeft, Nat.shiftLeft_eq, wrapU_def, Int.natCast_emod, Int.natCast_mul, Int.natCast_pow]
   rfl
 
@@ -231,6 +238,31 @@ theorem idivmod_u_ne (a b : W) (hb : b.toNat ≠ 0) :
 
 
 /-! ### power -/
+theorem sq_pow (a : W) (k : Nat) : (a * a) ^ k = a ^ (2 * k) := by
+  induction k with
+  | zero => rfl
+  | succ k ih =>
+    rw [BitVec.pow_succ, ih, show 2 * (k + 1) = 2 * k + 1 + 1 by omega, BitVec.pow_succ, BitVec.pow_succ, BitVec.mul_assoc]
+
+theorem powFast_eq (fuel : Nat) : ∀ (a : W) (n : Nat), n < 2 ^ fuel → powFast a fuel n = a ^ n := by
+  induction fuel with
+  | zero => intro a n h; have : n = 0 := by simpa using h
+            subst this; rfl
+  | succ fuel ih =>
+    intro a n h
+    unfold powFast
+    by_cases h0 : n = 0
+    · subst h0; rfl
+    · have hlt : n / 2 < 2 ^ fuel := by rw [Nat.pow_succ] at h; omega
+      simp only [h0, ↓reduceIte, ih (a * a) (n / 2) hlt, sq_pow]
+      by_cases hodd : n % 2 = 1
+      · simp only [hodd, ↓reduceIte]
+        rw [← BitVec.pow_succ]; congr 1; omega
+      · simp only [hodd, ↓reduceIte]; congr 1; omega
+
+theorem ipow_eq (a b : W) : ipow a b = a ^ b.toNat :=
+  powFast_eq 65 a b.toNat (Nat.lt_trans b.isLt (by decide))
+
 theorem toInt_pow (a : W) (n : Nat) : (a ^ n).toInt = wrapS (pyPow a.toInt n) := by
   unfold pyPow wrapS
   induction n with
@@ -239,7 +271,7 @@ theorem toInt_pow (a : W) (n : Nat) : (a ^ n).toInt = wrapS (pyPow a.toInt n) :=
     rw [BitVec.pow_succ, BitVec.toInt_mul, ih, Int.pow_succ, Int.bmod_mul_bmod]
 
 theorem ipow_toInt (a b : W) (h0 : 0 ≤ b.toInt) : (ipow a b).toInt = wrapS (pyPow a.toInt b.toInt.toNat) := by
-  unfold ipow; rw [shift_count b h0]; exact toInt_pow a _
+  rw [ipow_eq, shift_count b h0]; exact toInt_pow a _
 
 theorem toNat_pow' (a : W) (n : Nat) : ((a ^ n).toNat : Int) = wrapU (pyPow a.toNat n) := by
   unfold pyPow
@@ -251,7 +283,8 @@ theorem toNat_pow' (a : W) (n : Nat) : ((a ^ n).toNat : Int) = wrapU (pyPow a.to
     simp only [Nat.reducePow, Int.cast_ofNat_Int]
     rw [Int.mul_emod, Int.emod_emod_of_dvd _ (Int.dvd_refl _), ← Int.mul_emod]
 
-theorem ipow_toNat (a b : W) : ((ipow a b).toNat : Int) = wrapU (pyPow a.toNat b.toNat) := toNat_pow' a _
+theorem ipow_toNat (a b : W) : ((ipow a b).toNat : Int) = wrapU (pyPow a.toNat b.toNat) := by
+  rw [ipow_eq]; exact toNat_pow' a _
 
 /-! ### abs -/
 theorem iabs_toInt (a : W) : (iabs a).toInt = wrapS (pyAbs a.toInt) := by
